@@ -83,6 +83,10 @@ type Meth struct {
 	RespMsg []MsgAttr `json:"response_message,omitempty"`
 	// Security is the kind of the scheme the method requires: basic | apikey | jwt | oauth2.
 	Security string `json:"security,omitempty"`
+	// Order is the order in which the Method DSL declares security, payload,
+	// streaming_payload, result, streaming_result, grpc (parts left out come last, in
+	// that order).
+	Order []string `json:"order,omitempty"`
 }
 
 // MsgAttr is one attribute listed in an explicit Message DSL, optionally with its own
@@ -365,21 +369,64 @@ func (in *interp) top() {
 			for mi := range s.Methods {
 				m := &s.Methods[mi]
 				dsl.Method(m.Name, func() {
-					if sc := in.schemes[m.Security]; sc != nil {
-						dsl.Security(sc)
+					grpcDSL := func() { in.grpcDSL(m) }
+					for _, part := range m.order() {
+						switch part {
+						case "security":
+							if sc := in.schemes[m.Security]; sc != nil {
+								dsl.Security(sc)
+							}
+						case "payload":
+							if m.Payload != nil {
+								in.io(dsl.Payload, m.Payload)
+							}
+						case "streaming_payload":
+							if m.SPayload != nil {
+								in.io(dsl.StreamingPayload, m.SPayload)
+							}
+						case "result":
+							if m.Result != nil {
+								in.io(dsl.Result, m.Result)
+							}
+						case "streaming_result":
+							if m.SResult != nil {
+								in.io(dsl.StreamingResult, m.SResult)
+							}
+						case "grpc":
+							grpcDSL()
+						}
 					}
-					if m.Payload != nil {
-						in.io(dsl.Payload, m.Payload)
-					}
-					if m.SPayload != nil {
-						in.io(dsl.StreamingPayload, m.SPayload)
-					}
-					if m.Result != nil {
-						in.io(dsl.Result, m.Result)
-					}
-					if m.SResult != nil {
-						in.io(dsl.StreamingResult, m.SResult)
-					}
+				})
+			}
+		})
+	}
+}
+
+// canonicalOrder is the order in which a Method DSL declares its parts when the
+// design says nothing else.
+var canonicalOrder = []string{"security", "payload", "streaming_payload", "result", "streaming_result", "grpc"}
+
+// order gives the declaration order of the parts of the Method DSL: Order (a
+// permutation of a subset of canonicalOrder) first, the parts it omits after it.
+func (m *Meth) order() []string {
+	out := append([]string{}, m.Order...)
+	for _, p := range canonicalOrder {
+		seen := false
+		for _, q := range out {
+			seen = seen || q == p
+		}
+		if !seen {
+			out = append(out, p)
+		}
+	}
+	return out
+}
+
+func (in *interp) grpcDSL(m *Meth) {
+	{
+		{
+			{
+				{
 					dsl.GRPC(func() {
 						if len(m.Metadata) > 0 {
 							dsl.Metadata(attrs(m.Metadata))
@@ -401,9 +448,9 @@ func (in *interp) top() {
 							})
 						}
 					})
-				})
+				}
 			}
-		})
+		}
 	}
 }
 
